@@ -25,6 +25,9 @@ CHECKS = {
  "C07": dict(cat="model_checking", technique="exhaustive enumeration of operator pairs (both shapes x every leaf kind in every position), operator triples (all 5 shapes), unary placements and nesting/long-file families; byte comparison of the code the real compiler emits for the prefix and the infix spelling, plus NanoRef value check",
              text="~69,000 expressions: every ordered pair of the 13 binary operators in both association shapes with each of 7 leaf kinds (literal, variable, p.x, p.n.y, q.0, call, parenthesised prefix form) in every leaf position, every typed operator triple in all five tree shapes, unary -/not at every operand position, nesting to depth 400 and a 2,700-expression single file. Each is printed as fully parenthesised prefix form and as minimally parenthesised infix form per the stated rule, both are compiled by the real nano_virt --emit-nvm and the per-function code bytes must be identical; the prefix program is run and each value compared with NanoRef.",
              note="expressions sit in statement position ('let v: T = e'); a parenthesised infix expression starting with a unary operator is excluded because '(' + operator is the prefix form by definition; depth > 400 is C09's business", ref="DESIGN.md §4 C07"),
+ "C08": dict(cat="model_checking", technique="exhaustive matrix (array lengths x boundary indices x access kinds x element kinds x program shapes x engines) executed on the real native binary, the real VM and the real compile-time evaluator, plus all (count,index) pairs for tuple/struct/union field opcodes via the assembler",
+             text="168 programs (4 access kinds x 4 element kinds x 3 shapes x 4-10 lengths) take the index from the environment; each is run natively, on the VM and inside a shadow block with every out-of-range index of a 12-17 value boundary set (-1, n, n+1, 2n+1, INT64_MIN/MAX, 2^31, 2^32±, 2^32+k, 2^61+k ...) and with in-range controls: ~6,000 fault runs must exit non-zero without printing the sentinel that follows the access (SIGSEGV/SIGBUS count as touching memory outside the object), ~600 controls must succeed. 140 assembled modules request every (count, index) combination of TUPLE_GET/STRUCT_GET/STRUCT_SET/UNION_FIELD.",
+             note="lengths up to 8 (thorough 17); the line printed before the access is not required; SIGABRT from the runtime assertion is the documented panic", ref="DESIGN.md §4 C08"),
 }
 NA_REASON = "check not built yet in this round (planned, see DESIGN.md §9); no claim is made"
 def main():
